@@ -29,3 +29,8 @@ claim("C14", "other",
       "trusted: sa/cfg.py path enumeration and dominators; list.index / list.append semantics",
       "who-may-write census + path enumeration with dominating-condition extraction + affine identities", "DESIGN.md §4 C14")
 NA.pop("C14", None)
+claim("C01", "other",
+      "The project writer's 68 chunk rows and the 78 handlers of the four section readers are extracted from the AST and compared row by row (payload shape, struct format, signedness against YAML bounds, source attribute = target attribute, reverse direction, omission guard = reader-side default, text truncation vs decoder strictness, PEND/SEND on every slot path, clone = write-then-read); packed words SFGS/SMII in the bit domain. For scalar pack/unpack rows with equal formats the agreement is sufficient per field; whole-project value equality is declined.",
+      "trusted: struct pack/unpack inverse for equal formats; sa/codec.py row extraction (unrecognised yields are reported, never skipped)",
+      "sibling-table cross-check (writer vs reader codec rows) + CFG path check for slot terminators", "DESIGN.md §4 C01")
+NA.pop("C01", None)
